@@ -115,6 +115,8 @@ pub struct Real {
     pub maxbuf_line: bool,
     pub backend: BackendKind,
     pub force_version: Option<u8>,
+    /// storages keep the clock's time until `pin_all` (C18: the times of a storage that is removed before are never pinned)
+    pub pin_late: bool,
     pub clock_violation: Option<String>,
     /// message of the last panic caught in `exec`
     pub last_panic: Option<String>,
@@ -136,7 +138,7 @@ fn ok_unit(r: std::io::Result<()>) -> String {
 
 impl Real {
     pub fn new() -> Real {
-        Real { comp: None, file: None, handles: BTreeMap::new(), maxbuf: None, maxbuf_line: false, clock_violation: None, last_panic: None, backend: BackendKind::Mem, force_version: None }
+        Real { comp: None, file: None, handles: BTreeMap::new(), maxbuf: None, maxbuf_line: false, clock_violation: None, last_panic: None, backend: BackendKind::Mem, force_version: None, pin_late: false }
     }
 
     pub fn image(&self) -> Vec<u8> {
@@ -317,9 +319,11 @@ impl Real {
                                         self.clock_violation = Some(format!("{} created at {} / modified {} outside the clock readings [{}, {}]", q, c, m, before, after));
                                     }
                                 }
-                                let pin = cfb::verif::system_time_from_timestamp(PIN_TS);
-                                let _ = comp.set_created_time(q, pin);
-                                let _ = comp.set_modified_time(q, pin);
+                                if !self.pin_late {
+                                    let pin = cfb::verif::system_time_from_timestamp(PIN_TS);
+                                    let _ = comp.set_created_time(q, pin);
+                                    let _ = comp.set_modified_time(q, pin);
+                                }
                             }
                         }
                         ok_unit(r)
